@@ -41,7 +41,7 @@ CLAIMS = {
         text='Lean 4 theorems about the conditional of the interpreter model (condLoop = the \'i\' block of render_blocks_ '
              'inside its cache frame; dtml-if/elif/else, dtml-unless, dtml-call compile to it), for ALL programs, namespaces, '
              'fault plans and fuel: condLoop_cons (step rule), true_selects_body, later_conditions_not_evaluated, '
-             'false_skips_body, error_in_condition_propagates, gen_if_block_is_model / gen_if_block_is_renderBlk (the \'i\' block of render_blocks_ TRANSLATED from /repo on every run - harness/trans_render.py -> GenRender.lean - equals condLoop in its cache frame), gen_if_compile_is_model / gen_unless_compile_is_model / gen_else_compile_is_model / gen_if_compile_renders_as_model / gen_unless_compile_renders_as_model (If.__init__ / Unless.__init__ / Else of DT_If.py TRANSLATED from /repo on every run - harness/trans_ifc.py -> GenIfCompile.lean - store exactly the cells of the conditional the model builds from the same sections, or end in the same ParseError), gen_lookup_is_model (the lookups it rests on, C02), runFalse_skips / first_true_branch (the k-th body after k-1 '
+             'false_skips_body, error_in_condition_propagates, gen_if_block_is_model / gen_if_block_is_renderBlk (the \'i\' block of render_blocks_ TRANSLATED from /repo on every run - harness/trans_render.py -> GenRender.lean - equals condLoop in its cache frame), gen_if_compile_is_model / gen_unless_compile_is_model / gen_else_compile_is_model / gen_if_compile_renders_as_model / gen_unless_compile_renders_as_model (If.__init__ / Unless.__init__ / Else of DT_If.py TRANSLATED from /repo on every run - harness/trans_ifc.py -> GenIfCompile.lean - store exactly the cells of the conditional the model builds from the same sections, or end in the same ParseError), if_parts_error_iff_checkBlock / unless_parts_error_iff_checkBlock / gen_if_compile_error_iff_checkBlock / gen_unless_compile_error_iff_checkBlock (that ParseError is the one of the parser model\'s checkBlock of C06, same text, for every section list that starts with a section not called else), gen_lookup_is_model (the lookups it rests on, C02), runFalse_skips / first_true_branch (the k-th body after k-1 '
              'false conditions, each evaluated once), none_true_renders_else, cache_hit / named_condition_cached / '
              'repeated_condition_no_event (value stored once, reused without a call or event), undefined_is_false, '
              'if_renders_iff_true / unless_renders_iff_false / unless_is_not_if, call_once_no_output. Correspondence: results '
